@@ -314,6 +314,11 @@ impl<'a> TxV<'a> {
                     }
                     return Some(t);
                 }
+                if !self.is_user_function(x[0].atom(), fr) {
+                    if let Some((_, rule)) = vbuiltin_of_name(x[0].atom()) {
+                        return ret_by_rule(rule, &self.builtin_arg_types(&x[1..], fr)?);
+                    }
+                }
                 let (f, _) = self.resolve(x[0].atom(), &x[1..], fr)?;
                 self.ty(&f.args()[1])
             }
@@ -473,6 +478,24 @@ impl<'a> TxV<'a> {
             }
         };
         Some(shape + kind + if matches!(from, Ty::Enum(_)) { 10 } else { 0 })
+    }
+
+    fn is_user_function(&self, name: &str, fr: &Frame) -> bool {
+        self.funcs.contains_key(name) || fr.this.as_ref().map(|(k, _)| self.methods.get(k).map(|m| m.contains_key(name)).unwrap_or(false)).unwrap_or(false)
+    }
+
+    /// static types of the arguments of a built-in; an all-literal argument is an int / float
+    fn builtin_arg_types(&self, args: &[Sx], fr: &Frame) -> Option<Vec<Ty>> {
+        let mut out = Vec::new();
+        for a in args {
+            let t = self.arith(&self.type_of(a, fr)?)?;
+            out.push(match t.scalar()? {
+                T::Lit => t.with_scalar(T::Int),
+                T::Flit => t.with_scalar(T::Float),
+                _ => t,
+            });
+        }
+        Some(out)
     }
 
     /// a called name inside a method denotes a method of the same struct first, then a free function
@@ -652,6 +675,19 @@ impl<'a> TxV<'a> {
             "call" => {
                 if let Some(t) = numeric_type_of_name(x[0].atom()) {
                     return self.construct(&t, &x[1..], fr, gl, depth);
+                }
+                if !self.is_user_function(x[0].atom(), fr) {
+                    if let Some((variant, rule)) = vbuiltin_of_name(x[0].atom()) {
+                        // a built-in: every argument at its own (promoted) static type, left to right
+                        let tys = self.builtin_arg_types(&x[1..], fr)?;
+                        let ret = ret_by_rule(rule, &tys)?;
+                        let mut vals = Vec::new();
+                        for (a, t) in x[1..].iter().zip(&tys) {
+                            vals.push(self.eval_as(t, a, fr, gl, depth)?);
+                        }
+                        let names: Vec<String> = tys.iter().map(|t| t.show()).collect();
+                        return vintr(variant, &names, &vals, &ret);
+                    }
                 }
                 let (f, is_method) = self.resolve(x[0].atom(), &x[1..], fr)?;
                 if is_method {
